@@ -139,3 +139,7 @@ mutant("c12-prop-assign-inserts-even-with-op",
        [(B, "                    let name = name.clone();\n\n                    if op.is_some() {\n                        return new_loc_err(Error::OpOnUndefinedProp{name});\n                    }\n\n                    lock_deref!(props).insert(name, rhs);",
             "                    let name = name.clone();\n\n                    lock_deref!(props).insert(name, rhs);")],
        [("C12", "R12.2")], note="o.k += v on a missing key silently inserts")
+refactor("c09-table-in-bool-helper",
+         [(L, "            if let Some(t) = last_token {\n                match t {\n                    Token::AmpAmp |", "            if let Some(t) = last_token {\n                if !continues_stmt(&t) {\n                    return Some(Ok(span));\n                }\n            }\n        }\n    }\n}\n\nfn continues_stmt(t: &Token) -> bool {\n                match t {\n                    Token::AmpAmp |"),
+          (L, "                    Token::SumEquals => {},\n                    _ => {\n                        return Some(Ok(span));\n                    },\n                }\n            }\n        }\n    }\n}", "                    Token::SumEquals => true,\n                    _ => false,\n                }\n}")],
+         note="continuation table moved into a bool helper consulted by next()")
